@@ -3,9 +3,10 @@
    - ErrOnce/sync.Once: under any arrival order the function runs once and every caller gets its result;
    - a site that returns a pooled buffer's storage is overwritten under an interleaving (witness), which is
      why the site inventory of C10 (all sites copy) is a premise of race freedom for the pools.
-   Not proved yet (stated in DESIGN): the ownership invariant of Model/Conc.v for all schedules. *)
+   - the ownership invariant of Model/Conc.v for ALL schedules and all choices of buffers by Get: a buffer is held by
+     at most one goroutine and never pooled while held, so a call that returns a copy returns its own output. *)
 From Coq Require Import List NArith Bool.
-From JS Require Import Model.Pools Model.Conc Proofs.ConcProofs Gen.PoolSites Proofs.PoolProofs.
+From JS Require Import Model.Pools Model.Conc Proofs.ConcProofs Proofs.ConcInvariant Gen.PoolSites Proofs.PoolProofs.
 Import ListNotations.
 
 Theorem C11_once : forall V (f : unit -> V) (r : list (unit -> V)),
@@ -21,3 +22,21 @@ Print Assumptions C11_alias_refuted.
 Theorem C11_sites_copy : forall s, In s pool_sites -> site_ok s = true.
 Proof. exact sites_copy. Qed.
 Print Assumptions C11_sites_copy.
+
+(* every schedule, every choice of Get: exclusive ownership of buffers ... *)
+Theorem C11_exclusive_ownership : forall calls sched t1 t2 th1 th2 i, t1 <> t2 ->
+  nth_error (threads (crun (ginit calls) sched)) t1 = Some th1 -> nth_error (threads (crun (ginit calls) sched)) t2 = Some th2 ->
+  held th1 = Some i -> held th2 <> Some i /\ ~ In i (gpool (crun (ginit calls) sched)).
+Proof. exact exclusive_ownership. Qed.
+Print Assumptions C11_exclusive_ownership.
+(* ... hence a call that returns a copy (C11_sites_copy: all sites do) has the sequential result *)
+Theorem C11_copy_calls_sequential : forall calls sched t th c,
+  nth_error (threads (crun (ginit calls) sched)) t = Some th -> nth_error calls t = Some c -> snd c = Copy -> 3 <= pc th ->
+  final_value (crun (ginit calls) sched) t = Some (fst c).
+Proof. exact copy_calls_sequential. Qed.
+Print Assumptions C11_copy_calls_sequential.
+(* non-vacuity: the schedule that breaks a View (C11_alias_refuted) leaves Copy calls intact *)
+Example C11_copy_example :
+  final_value (crun (ginit [([1; 2]%N, Copy); ([9; 9]%N, Copy)])
+                    [(0, None); (0, None); (0, None); (0, None); (1, Some 0); (1, None); (1, None)]) 0 = Some [1; 2]%N.
+Proof. vm_compute. reflexivity. Qed.
